@@ -23,7 +23,7 @@ var hugeViews = []uint64{1 << 63, ^uint64(0), 1 << 32}
 var classes = []string{
 	"honest-api", "honest-manual", "repeated-signer", "sub-quorum", "unknown-signer", "foreign-message",
 	"relabel-view", "relabel-hash", "swapped-ids", "empty-sig", "garbage-sig", "mixed-views", "extra-map-entry",
-	"valid-plus-invalid", "wrong-key", "free-form", "unsigned-map-entry",
+	"valid-plus-invalid", "wrong-key", "free-form", "unsigned-map-entry", "labels-without-share",
 }
 
 func subset(rt *rapid.T, n, k int, label string) []int {
@@ -216,6 +216,22 @@ func genSpec(rt *rapid.T, maxN int, schemes []string) cs.Spec {
 			}
 		} else {
 			s.Entries = s.Entries[:q-1]
+		}
+	case "labels-without-share":
+		// fewer than a quorum of real signatures; the signer COUNT is padded with labels that carry no signature share (for BLS
+		// a bit in the participants field, for the multi-signature schemes an entry without bytes), and for an aggregate
+		// certificate the padded ids get no map entry, so that every listed message really is signed
+		keep := rapid.IntRange(1, max(1, q-1)).Draw(rt, "keep")
+		if keep < len(s.Entries) {
+			pad := s.Entries[keep:]
+			s.Entries = s.Entries[:keep]
+			for _, e := range pad {
+				e.Empty = true
+				s.Entries = append(s.Entries, e)
+			}
+			if s.Kind == "aggqc" && keep <= len(s.Map) && rapid.IntRange(0, 3).Draw(rt, "keepmap") > 0 {
+				s.Map = s.Map[:keep]
+			}
 		}
 	case "unsigned-map-entry":
 		// a quorum of honest signers, plus map entries (attested QCs) for replicas that contributed no signature
